@@ -274,6 +274,113 @@ theorem C14_desired_run_vs_required_run (ti : TyInfo) (ip : Option Nat) (x0 x' :
       exact Or.inr ⟨_, rfl⟩
 
 
+theorem eliminateUnused_excl_mono : ∀ (fuel : Nat) (check : List Nat) (ch : Chain) (j : Nat), (ch.get j).excluded = true →
+    ((eliminateUnused fuel check ch).get j).excluded = true
+  | 0, _, ch, j, h => by simp only [eliminateUnused]; exact h
+  | _ + 1, [], ch, j, h => by simp only [eliminateUnused]; exact h
+  | fuel + 1, i :: check, ch, j, h => by
+    simp only [eliminateUnused]
+    split
+    · exact eliminateUnused_excl_mono fuel check ch j h
+    · split
+      · exact eliminateUnused_excl_mono fuel check ch j h
+      · refine eliminateUnused_excl_mono fuel _ _ j ?_
+        rw [get_upd]; split
+        · rfl
+        · exact h
+
+theorem proposalLoop_EM : ∀ (fuel : Nat) (ch : Chain), CC ch → EM ch (proposalLoop fuel ch)
+  | 0, ch, _ => by simp only [proposalLoop]; exact EM_refl ch
+  | fuel + 1, ch, hcc => by
+    simp only [proposalLoop]
+    have ⟨em, cc⟩ := proposalRound_CC ch hcc
+    split
+    · exact em
+    · exact EM_trans em (proposalLoop_EM fuel _ cc)
+
+/-- what the first validation marked stays excluded through pruning -/
+theorem pruneStages_keeps_mark (ch : Chain) (h0 : ∀ j, (ch.get j).clusterMembers = none) (j : Nat) (hc : (ch.get j).cannot = true) :
+    ((pruneStages ch).get j).excluded = true := by
+  rw [pruneStages_unfold]
+  simp only []
+  have g0 : (Chain.get (ch.map fun (f : IP) => if f.cannot then { f with excluded := true, inc := false } else f) j).excluded = true := by
+    rw [map_get ch _ rfl j]
+    simp only [hc, if_true]
+  have hm : ∀ k, (Chain.get (ch.map fun (f : IP) => if f.cannot then { f with excluded := true, inc := false } else f) k).clusterMembers = none := by
+    intro k
+    rw [map_get ch _ rfl k]
+    split
+    · exact h0 k
+    · exact h0 k
+  have ⟨cca, _, sta⟩ := clusters_CC _ hm
+  have xa : ((clusters (ch.map fun (f : IP) => if f.cannot then { f with excluded := true, inc := false } else f)).get j).excluded = true := by
+    rw [(sta j).2]; exact g0
+  generalize clusters (ch.map fun (f : IP) => if f.cannot then { f with excluded := true, inc := false } else f) = a at cca xa
+  have xb := eliminateUnused_excl_mono (a.length + (a.map (·.uses.length)).sum + 8) (List.range a.length) a j xa
+  have ⟨ccb, _⟩ := eliminateUnused_CC (a.length + (a.map (·.uses.length)).sum + 8) (List.range a.length) a cca
+  have xc := ((proposalLoop_EM (a.length + 1) _ ccb).2 j).2 xb
+  rw [map_get _ _ rfl j]
+  exact xc
+
+/-- **C14, both directions**: under the hypotheses of `C14_desired_run_vs_required_run`, the Desired provider is included
+    exactly when the run with the provider Required succeeds -/
+theorem C14_desired_included_iff_required_run_succeeds (ti : TyInfo) (ip : Option Nat) (x0 x' : Chain) (d : Nat)
+    (hdd : DesD d x0) (h0 : ∀ j, (x0.get j).clusterMembers = none) (hip : ∀ p, ip = some p → p < x0.length)
+    (h : includeRun ti ip x0 = .ok x') :
+    (x'.get d).inc = true ↔ ∃ y', includeRun ti ip (x0.upd d reqF) = .ok y' := by
+  constructor
+  · intro hinc
+    -- if the Required run failed, one of the two validations marked d, and then it is not included
+    unfold includeRun at h ⊢
+    have hrel0 := providesReturns_RelD (RelD_setReq x0 d hdd.lt) ti ip
+    have hsf0 := providesReturns_SF ti x0 ip
+    have hxf0 := providesReturns_XF ti x0 ip
+    have hyf0 := providesReturns_YF ti x0 ip
+    have hs0 := providesReturns_sym ti x0 ip hip
+    cases hv1 : validate true (providesReturns ti x0 ip) with
+    | error e => rw [hv1] at h; cases h
+    | ok ch1 =>
+      rw [hv1] at h
+      simp only [] at h
+      have hlen0 : (providesReturns ti x0 ip).length = x0.length := hsf0.1
+      have hfr1 := validate_FR true _ ch1 hv1
+      have hcf : ∀ j, (ch1.get j).c = (x0.get j).c ∧ (ch1.get j).excluded = (x0.get j).excluded ∧
+          (ch1.get j).clusterMembers = (x0.get j).clusterMembers := by
+        intro j
+        have := hfr1.2 j
+        unfold flagsOnly at this
+        rw [← this]
+        exact ⟨(hsf0.2 j).2.2.1, (hxf0.2 j).1, (hyf0.2 j).1⟩
+      have hl1 : ch1.length = x0.length := hfr1.1.trans hlen0
+      rcases validate_desired_vs_required true d _ _ ch1 hrel0 hs0 (by rw [hlen0]; exact hdd.lt)
+          (by rw [(hsf0.2 d).2.2.1]; exact hdd.req) (by rw [(hxf0.2 d).1]; exact hdd.ex) hv1 with ⟨hc1, _, y1, hy1, hrel1⟩ | ⟨hc1, _⟩
+      · rw [hy1]
+        simp only []
+        have hdd1 : DesD d ch1 := ⟨by rw [hl1]; exact hdd.lt, by rw [(hcf d).1]; exact hdd.req, by rw [(hcf d).1]; exact hdd.des,
+          by rw [(hcf d).1]; exact hdd.shun, by rw [(hcf d).1]; exact hdd.cl, by rw [(hcf d).2.1]; exact hdd.ex⟩
+        have ⟨hrel2, hdd2⟩ := pruneStages_RelD hrel1 hdd1 hc1 (fun j => by rw [(hcf j).2.2]; exact h0 j)
+        have hrel3 := providesReturns_RelD hrel2 ti ip
+        have hsf3 := providesReturns_SF ti (pruneStages ch1) ip
+        have hxf3 := providesReturns_XF ti (pruneStages ch1) ip
+        have hs3 := providesReturns_sym ti (pruneStages ch1) ip (fun p hp => by rw [pruneStages_length, hl1]; exact hip p hp)
+        rcases validate_desired_vs_required true d _ _ x' hrel3 hs3 (by rw [hsf3.1]; exact hdd2.lt)
+            (by rw [(hsf3.2 d).2.2.1]; exact hdd2.req) (by rw [(hxf3.2 d).1]; exact hdd2.ex) h with ⟨_, _, y', hy', _⟩ | ⟨hc3, _⟩
+        · exact ⟨y', hy'⟩
+        · -- marked by the final validation: not included
+          exfalso
+          have hfix := (validate_fix true _ x' h hs3).2
+          rw [(hfix d hinc).1] at hc3; cases hc3
+      · -- marked by the first validation: excluded by pruning, so not included at the end
+        exfalso
+        have hmark := pruneStages_keeps_mark ch1 (fun j => by rw [(hcf j).2.2]; exact h0 j) d hc1
+        have hxf3 := providesReturns_XF ti (pruneStages ch1) ip
+        have := (validate_excl true _ x' h d (by rw [(hxf3.2 d).1]; exact hmark)).1
+        rw [this] at hinc; cases hinc
+  · rintro ⟨y', hy'⟩
+    rcases C14_desired_run_vs_required_run ti ip x0 x' d hdd h0 hip h with ⟨hinc, _⟩ | ⟨e, he⟩
+    · exact hinc
+    · rw [hy'] at he; cases he
+
 /-- premises are satisfiable, both ways: with provider 0 (Desired, kept) made Required the run succeeds alike; with provider 1
     (Desired, asks for a type nobody provides) made Required the run fails -/
 def c14LockChain : Chain := initState c14ValidateExample []
